@@ -8,7 +8,7 @@ From BS Require Import Model.Base Model.Regex Model.Num Model.ExprParser Model.S
   Proofs.ExprFuel Proofs.C10wsFull Proofs.RegexShiftG Proofs.C10wsIndent2 Proofs.C10wsReturn
   Proofs.C10tokLex Proofs.C10tokSpaced Proofs.RegexTrail Proofs.C10tokTrail Proofs.RegexTrail2
   Proofs.RegexTrail3 Proofs.C10stmtTrail Proofs.C10parseNoeq Proofs.C10classifyTrail Proofs.C10stmtGaps Proofs.C10stmtGaps2 Proofs.C10stmtGaps3
-  Proofs.C10stmtGaps4 Proofs.C10stmtGaps5 Proofs.C10stmtGaps6 Proofs.C02str Proofs.C10stmtGaps7.
+  Proofs.C10stmtGaps4 Proofs.C10stmtGaps5 Proofs.C10stmtGaps6 Proofs.C02str Proofs.C10stmtGaps7 Proofs.C10stmtGaps8.
 
 (* ---- LF versus CRLF: both texts have the same lines ---- *)
 Theorem C10_crlf : forall lines, lines <> [] -> Forall no_lf lines -> Forall (fun l => ends_cr l = false) lines ->
@@ -352,7 +352,8 @@ Qed.
    places where the statement regex has `\s*` / `\s+`.  PARTIAL: the kinds assignment, if, elif, while, return <expr>, jump,
    jumpif, include <url> (plus, from before, `else :` C10_ws_else_gap and the keyword-only lines), and — round 7, below:
    C10_ws_label_pieces, C10_ws_for_pieces, C10_ws_for_index_pieces, relation stmt_spaced3 — label and for, and
-   C10_ws_include_quoted_pieces — include 'url'.  NOT covered: function begin (oracle only).  For the first eight kinds the classification is computed from the PIECES of the line, for ALL white runs:
+   C10_ws_include_quoted_pieces — include 'url', C10_ws_fn_begin_pieces — function begin: every statement kind now has
+   a pieces theorem (the bare expression statement is the expression-token theorem).  For the first eight kinds the classification is computed from the PIECES of the line, for ALL white runs:
      w1 name w2 = T        ->  KAssign name e           w1 if w2 T : w4            ->  KIf e
      w1 elif w2 T : w4     ->  KElif (ROk e)            w1 while w2 T : w4         ->  KWhile e
      w1 return w2 T        ->  KReturn (Some e)         w1 jump w2 name w4         ->  KJump name None
@@ -524,6 +525,33 @@ Example C10_ex_ws_include_quoted :
   Lower.classify 2 (U " include  'a\00005c' ") = ROk (KInclude (U "a\00005c") false).
 Proof. exact include_quoted_examples. Qed.
 
+(* ---- round 7 (Proofs/C10stmtGaps8.v): function begin.  The line is built from its pieces
+     [w0 async] w1 function w2 name w3 ( w4 [a1 (u , v a_i)*] [w5 ...] w6 ) w7 : w8
+   astext asy = w0 async (asy = Some w0) or nothing; atext args = a1 followed by  u , v a_i  for every further argument
+   (args = Some (a1, [(u, v, a_i); ...])) or nothing; dtext dots = w5 ... (dots = Some w5) or nothing;
+   CL w6 w7 w8 = w6 ) w7 : w8.  ALL runs white (w2 non-empty), name a1 a_i identifiers; the run after the parenthesis is
+   maximal (hd_ok is_sp: without arguments w5, and without dots also w6, belong to w4).  The result has the name, async /
+   `...` flags, and as argument list the model's split of the argument text atext args at `\s*,\s*` (fn_args: re_split
+   on the captured text; the split itself is not read directly here: C10_ex_ws_fn_begin computes it on the example), or
+   ROk None when there is no argument group.  Engine: two optional groups (RegexEval.ev_opt), a star over the group
+   `(?:\s*,\s*ID)*` read by induction on the list of further arguments. ---- *)
+Theorem C10_ws_fn_begin_pieces : forall n asy w1 w2 name w3 w4 args dots w6 w7 w8,
+  awhite asy -> white w1 -> white w2 -> w2 <> [] -> ident name = true -> white w3 -> white w4 -> aok args -> dwhite dots ->
+  white w6 -> white w7 -> white w8 -> hd_ok is_sp (atext args ++ dtext dots ++ CL w6 w7 w8) ->
+  Lower.classify n (astext asy ++ w1 ++ U "function" ++ w2 ++ name ++ w3 ++ U "(" ++ w4 ++ atext args ++ dtext dots ++ CL w6 w7 w8)
+  = ROk (KFnBegin name (fn_args args) (is_some asy) (is_some dots)).
+Proof. exact classify_fn_begin_shape. Qed.
+Print Assumptions C10_ws_fn_begin_pieces.
+
+Example C10_ex_ws_fn_begin :
+  Lower.classify 2 (U "  async \000009function  f1 ( a ,b1 \000009 , c  ... ) :  ")
+    = ROk (KFnBegin (U "f1") (fn_args (Some (U "a", [(U " ", [], U "b1"); (U " \000009 ", U " ", U "c")]))) true true) /\
+  fn_args (Some (U "a", [(U " ", [], U "b1"); (U " \000009 ", U " ", U "c")])) = ROk (Some [U "a"; U "b1"; U "c"]) /\
+  Lower.classify 2 (U "async function f1(a,b1,c...):") = ROk (KFnBegin (U "f1") (ROk (Some [U "a"; U "b1"; U "c"])) true true) /\
+  Lower.classify 2 (U "function g( ) :") = ROk (KFnBegin (U "g") (ROk None) false false) /\
+  Lower.classify 2 (U "function g(  ...):") = ROk (KFnBegin (U "g") (ROk None) false true).
+Proof. exact fn_begin_examples. Qed.
+
 Theorem C10_expression_never_starts_eq : forall t e, parse_expression (U "=" ++ t) <> EOk e.
 Proof. exact parse_hd_noeq. Qed.
 Print Assumptions C10_expression_never_starts_eq.
@@ -580,12 +608,13 @@ Qed.
      per-kind C10_ws_*_pieces; include <url>: C10_ws_include_system_pieces; round 7: label (`name :`, name not one of
      if elif else while) and for (`for v in e :`, `for v , i in e :`): C10_ws_label_pieces, C10_ws_for_pieces,
      C10_ws_for_index_pieces, C10_ws_statement_gaps3_partial (relation stmt_spaced3); include 'url' (every quote of the url
-     escaped): C10_ws_include_quoted_pieces; from before: the keyword-only statements and the bare `return` with any indentation and
+     escaped): C10_ws_include_quoted_pieces; function begin: C10_ws_fn_begin_pieces; from before: the keyword-only statements and the bare `return` with any indentation and
      trailing whitespace (C10_ws_keyword_lines, C10_ws_return_bare) and `else :` (C10_ws_else_gap).
    NOT proved (oracle only):
-   * the INNER gaps of function begin (`async`, `function`, name, `(`, the argument list with its commas, `...`, `)`, `:`):
-     its indentation and trailing run ARE covered (C10_ws_padding), the gaps between its pieces are not.  What is missing
-     is a direct reading of its regex (as in Proofs/C10stmtGaps.v): two optional groups and a star over a group;
+   * function begin: the pieces theorem C10_ws_fn_begin_pieces (round 7) gives the argument list as the model's re_split of
+     the captured argument text at `\s*,\s*`; that this split is the list of the argument names is computed on examples,
+     not proved for every list; function begin, include '...' and the label are stated by their pieces only (they are
+     not constructors of stmt_spaced3: no expression in them — the label is);
    * C10_ws_statement_gaps_partial has the premise "the expression text parses" (it yields that BOTH layouts classify as
      the same kind) rather than "the first layout classifies successfully"; rejected lines are not related (their error
      record quotes the line, so it differs by construction; that the message and the column relative to the first token
